@@ -160,6 +160,149 @@ def header_tables(text, what, insts):
     return idx, [tuple(int(x) for x in r) for r in rows]
 
 
+# ------------------------------------------------------------------ integer constants: generic engine + _cffi_from_c_int_const
+C_INT_TYPES = {"long long": "to_ll", "long": "to_ll", "unsigned long long": "to_ull", "unsigned long": "to_ull"}
+C_CMP = {">": ">?", ">=": ">=?", "<": "<?", "<=": "<=?"}
+PYLONG_FROM = {"PyLong_FromLong": "long", "PyLong_FromLongLong": "long long",
+               "PyLong_FromUnsignedLongLong": "unsigned long long", "PyLong_FromUnsignedLong": "unsigned long"}
+
+
+def translate_int_constants(src):
+    """vengine_gen.py: the C text printed by _generate_gen_const for an integer constant and the Python fix-up of
+    _load_constant; vengine_cpy.py: the macro _cffi_from_c_int_const.  Fail closed on any other shape."""
+    import ast
+    gtext = open(os.path.join(src, "cffi", "vengine_gen.py")).read()
+    tree = ast.parse(gtext)
+    cls = [n for n in tree.body if isinstance(n, ast.ClassDef) and n.name == "VGenericEngine"]
+    if len(cls) != 1:
+        raise Untranslatable("class VGenericEngine")
+    fns = {f.name: f for f in cls[0].body if isinstance(f, ast.FunctionDef)}
+    if "_generate_gen_const" not in fns or "_load_constant" not in fns:
+        raise Untranslatable("_generate_gen_const / _load_constant not found")
+    # --- the `elif is_int:` branch of _generate_gen_const: exactly these five prnt calls
+    g = fns["_generate_gen_const"]
+    top = [st for st in g.body if isinstance(st, ast.If) and ast.unparse(st.test) == "check_value is not None"]
+    if len(top) != 1 or len(top[0].orelse) != 1 or not isinstance(top[0].orelse[0], ast.If) \
+            or ast.unparse(top[0].orelse[0].test) != "is_int":
+        raise Untranslatable("_generate_gen_const: `if check_value is not None: ... elif is_int:` not found")
+    prints = []
+    for st in top[0].orelse[0].body:
+        if isinstance(st, ast.Assert):
+            continue
+        if not (isinstance(st, ast.Expr) and isinstance(st.value, ast.Call) and ast.unparse(st.value.func) == "prnt"
+                and len(st.value.args) == 1):
+            raise Untranslatable("_generate_gen_const int branch: unexpected statement %s" % ast.unparse(st)[:60])
+        a = st.value.args[0]
+        if isinstance(a, ast.BinOp) and isinstance(a.op, ast.Mod) and isinstance(a.left, ast.Constant):
+            arg = ast.unparse(a.right)
+            if arg not in ("funcname", "(name,)", "name"):
+                raise Untranslatable("_generate_gen_const int branch: formatted with %s" % arg)
+            prints.append(a.left.value.replace("%s", "F" if arg == "funcname" else "X"))
+        elif isinstance(a, ast.Constant):
+            prints.append(a.value)
+        else:
+            raise Untranslatable("_generate_gen_const int branch: prnt argument")
+    if len(prints) != 5 or prints[0] != "int F(long long *out_value)" or prints[1] != "{" or prints[4] != "}":
+        raise Untranslatable("_generate_gen_const int branch prints %r" % (prints,))
+    m1 = re.fullmatch(r"\s*\*out_value = \(([a-z ]+)\)\(X\);", prints[2])
+    m2 = re.fullmatch(r"\s*return \(X\) (<=|<|>=|>) 0;", prints[3])
+    if not m1 or m1.group(1) not in C_INT_TYPES or not m2:
+        raise Untranslatable("_generate_gen_const int branch prints %r" % (prints[2:4],))
+    if m1.group(1) != "long long":
+        raise Untranslatable("*out_value is a long long but is assigned a (%s)" % m1.group(1))
+    # --- the `elif is_int:` branch of _load_constant
+    l = fns["_load_constant"]
+    top = [st for st in l.body if isinstance(st, ast.If) and ast.unparse(st.test) == "check_value is not None"]
+    if len(top) != 1 or len(top[0].orelse) != 1 or not isinstance(top[0].orelse[0], ast.If) \
+            or ast.unparse(top[0].orelse[0].test) != "is_int":
+        raise Untranslatable("_load_constant: `elif is_int:` not found")
+    body = top[0].orelse[0].body
+    texts = [ast.unparse(st) for st in body]
+    want_prefix = ["BType = self.ffi._typeof_locked('long long*')[0]",
+                   "BFunc = self.ffi._typeof_locked('int(*)(long long*)')[0]",
+                   "function = module.load_function(BFunc, funcname)",
+                   "p = self.ffi.new(BType)", "negative = function(p)", "value = int(p[0])"]
+    if texts[:6] != want_prefix or len(body) != 7 or not isinstance(body[6], ast.If) or body[6].orelse:
+        raise Untranslatable("_load_constant int branch: %r" % (texts,))
+
+    def pe(n):
+        if isinstance(n, ast.BoolOp):
+            op = "andb" if isinstance(n.op, ast.And) else "orb"
+            t = pe(n.values[0])
+            for v in n.values[1:]:
+                t = "(%s %s %s)" % (op, t, pe(v))
+            return t
+        if isinstance(n, ast.UnaryOp) and isinstance(n.op, ast.Not):
+            return "(negb %s)" % pe(n.operand)
+        if isinstance(n, ast.Compare) and len(n.ops) == 1:
+            ops = {ast.Lt: "<?", ast.LtE: "<=?", ast.Gt: ">?", ast.GtE: ">=?", ast.Eq: "=?"}
+            if type(n.ops[0]) not in ops:
+                raise Untranslatable("comparison in _load_constant")
+            return "(%s %s %s)" % (pe(n.left), ops[type(n.ops[0])], pe(n.comparators[0]))
+        if isinstance(n, ast.Name) and n.id in ("value", "negative"):
+            return n.id
+        if isinstance(n, ast.Constant) and type(n.value) is int:
+            return "(%d)" % n.value
+        if isinstance(n, ast.BinOp) and isinstance(n.op, (ast.LShift, ast.Mult, ast.Add, ast.Sub)):
+            f = {ast.LShift: "Z.shiftl", ast.Mult: "Z.mul", ast.Add: "Z.add", ast.Sub: "Z.sub"}[type(n.op)]
+            return "(%s %s %s)" % (f, pe(n.left), pe(n.right))
+        if isinstance(n, ast.Call) and ast.unparse(n) == "self.ffi.sizeof(BLongLong)":
+            return "(8)"      # BLongLong = typeof('long long'), checked below
+        raise Untranslatable("_load_constant fix-up: %s" % ast.unparse(n)[:80])
+    fix = body[6]
+    ftexts = [ast.unparse(st) for st in fix.body]
+    if len(fix.body) != 2 or ftexts[0] != "BLongLong = self.ffi._typeof_locked('long long')[0]" \
+            or not (isinstance(fix.body[1], ast.AugAssign) and isinstance(fix.body[1].op, ast.Add)
+                    and ast.unparse(fix.body[1].target) == "value"):
+        raise Untranslatable("_load_constant fix-up body: %r" % (ftexts,))
+    cond, add = pe(fix.test), pe(fix.body[1].value)
+    # --- vengine_cpy.py: _cffi_from_c_int_const
+    vtext = open(os.path.join(src, "cffi", "vengine_cpy.py")).read()
+    mm = re.search(r"#define _cffi_from_c_int_const\(x\)((?:[^\n]*\\\n)*[^\n]*)\n", vtext)
+    if not mm:
+        raise Untranslatable("_cffi_from_c_int_const not found")
+    mac = re.sub(r"\\\n", " ", mm.group(1))
+    mac = re.sub(r"\s+", "", mac)
+    ty = r"\(((?:unsigned)?(?:longlong|long))\)"
+    pat = (r"\(\(\(x\)(>|>=)0\)\?\(%s\(x\)(<=|<)%sLONG_MAX\)\?(\w+)\(%s\(x\)\):(\w+)\(%s\(x\)\):"
+           r"\(%s\(x\)(>=|>)%sLONG_MIN\)\?(\w+)\(%s\(x\)\):(\w+)\(%s\(x\)\)\)" % ((ty,) * 8))
+    m = re.fullmatch(pat, mac)
+    if not m:
+        raise Untranslatable("_cffi_from_c_int_const has an unexpected shape: %s" % mac[:200])
+    (op0, t1, op1, t1b, f1, c1, f2, c2, t3, op3, t3b, f3, c3, f4, c4) = m.groups()
+
+    def cty(t):
+        t = t.replace("unsigned", "unsigned ").replace("longlong", "long long")
+        if t not in C_INT_TYPES:
+            raise Untranslatable("C type %s" % t)
+        return t
+    if cty(t1) != cty(t1b) or cty(t3) != cty(t3b):
+        raise Untranslatable("_cffi_from_c_int_const compares values of different types")
+
+    def build(f, c):
+        if f not in PYLONG_FROM:
+            raise Untranslatable("_cffi_from_c_int_const calls %s" % f)
+        if C_INT_TYPES[PYLONG_FROM[f]] != C_INT_TYPES[cty(c)]:
+            raise Untranslatable("%s is passed a (%s)" % (f, cty(c)))
+        return "(%s x)" % C_INT_TYPES[cty(c)]
+    out = [
+        "\n(* vengine_gen.py _generate_gen_const, integer constant X: `*out_value = (long long)(X); return (X) %s 0;`" % m2.group(1),
+        "   (the comparison is done in X's own promoted type, where it agrees with the mathematical one) *)",
+        "Definition vgen_out_value (x : Z) : Z := %s x." % C_INT_TYPES[m1.group(1)],
+        "Definition vgen_return (x : Z) : bool := (x %s 0)." % C_CMP[m2.group(1)],
+        "(* vengine_gen.py _load_constant: negative = function(p); value = int(p[0]); if %s: value += %s *)"
+        % (ast.unparse(fix.test), ast.unparse(fix.body[1].value)),
+        "Definition vgen_load_fixup (value : Z) (negative : bool) : Z :=\n  if %s then value + %s else value." % (cond, add),
+        "(* vengine_cpy.py #define _cffi_from_c_int_const(x); PyLong_FromT(v) is the Python int v; LONG_MAX/LONG_MIN: sizeof(long) = 8 *)",
+        "Definition vcpy_from_c_int_const (x : Z) : Z :=",
+        "  if (x %s 0) then (if (%s x %s %s LONG_MAX) then %s else %s)" % (
+            C_CMP[op0], C_INT_TYPES[cty(t1)], C_CMP[op1], C_INT_TYPES[cty(t1)], build(f1, c1), build(f2, c2)),
+        "  else (if (%s x %s %s LONG_MIN) then %s else %s)." % (
+            C_INT_TYPES[cty(t3)], C_CMP[op3], C_INT_TYPES[cty(t3)], build(f3, c3), build(f4, c4)),
+    ]
+    return "\n".join(out)
+
+
 def translate_gen():
     src = os.path.join(vlib.REPO, "src")
     bk = open(os.path.join(src, "c", "_cffi_backend.c")).read()
@@ -219,6 +362,8 @@ def translate_gen():
      /repo/src/cffi/vengine_cpy.py   (cffimod_header: _cffi_to_c_int dispatch, _cffi_to_c_iN/uN
                                       export indices, _cffi_from_c_int)
      /repo/src/cffi/_cffi_include.h  (the same macros as used by set_source() modules)
+     /repo/src/cffi/vengine_gen.py   (_generate_gen_const / _load_constant, integer constants; vengine_cpy.py
+                                      _cffi_from_c_int_const)
    Do not edit: this committed copy is the snapshot used when the translator fails. *)
 From Coq Require Import ZArith List.
 Import ListNotations.
@@ -250,6 +395,7 @@ Local Open Scope Z_scope.
     out.append("\n(* _cffi_from_c_int(x, type) has the expected text in both headers *)")
     out.append("Definition vengine_from_c_int_standard : bool := true.")
     out.append("Definition include_from_c_int_standard : bool := true.")
+    out.append(translate_int_constants(src))
     return "\n".join(out) + "\n"
 
 
